@@ -207,10 +207,16 @@ pub fn script_of(spec: &PartSpec, pad: usize, ts0: i64) -> (Vec<Item>, i64, usiz
 
 /// Endless tail of partition `p`: batch n has two rows whose `ts` keeps increasing.
 pub fn tail_gen(p: usize, ts0: i64) -> TailGen {
+    tail_gen_keys(p, ts0, 6)
+}
+
+/// `nkeys` distinct key values (1 = every row has key 0: fully skewed hash partitioning)
+pub fn tail_gen_keys(p: usize, ts0: i64, nkeys: u8) -> TailGen {
+    let nk = nkeys.clamp(1, 6) as i64;
     Arc::new(move |n: u64| {
         let n = n as i64;
         let t = ts0 + 1 + n;
-        make_batch(&[((n + p as i64) % 6, t, n % 7), ((n + 3) % 6, t, (n + p as i64) % 5)], 0)
+        make_batch(&[((n + p as i64) % nk, t, n % 7), ((n + 3) % nk, t, (n + p as i64) % 5)], 0)
     })
 }
 
@@ -268,6 +274,8 @@ pub enum Ending {
     Finish,
     /// endless always-ready tail, capped at this many batches
     Tail(u64),
+    /// same, with this many distinct key values in the tail (1 = fully skewed)
+    TailKeys(u64, u8),
     HangParked,
     HangBusy,
 }
@@ -303,6 +311,7 @@ pub async fn build(spec: &PlanSpec, ending: Ending, force_coop: bool) -> Result<
                 match ending {
                     Ending::Finish => Script::finite(items),
                     Ending::Tail(cap) => Script { items, tail: Some(tail_gen(p + 3 * side, last_ts)), tail_cap: cap, tail_pending_every: 0, end: End::Finish },
+                    Ending::TailKeys(cap, nkeys) => Script { items, tail: Some(tail_gen_keys(p + 3 * side, last_ts, nkeys)), tail_cap: cap, tail_pending_every: 0, end: End::Finish },
                     Ending::HangParked => Script { end: End::HangParked, ..Script::finite(items) },
                     Ending::HangBusy => Script { end: End::HangBusy, ..Script::finite(items) },
                 }
